@@ -181,7 +181,7 @@ def check(F, rep, tier):
     rep.ok("R14.5", "no thread spawn in %d reachable functions" % len(local), nontrivial_key="nothreads")
     # ---- R14.6 dependencies: what is read from other programs does not depend on the locale or on logging settings ---------------
     core.borrow(F, rep, "c02", "C02", "R14.6", ("R02.4:argv:", "R02.4:unlisted-git-call"), "every git invocation is one of the audited machine-readable forms (format strings, --porcelain, --show-current): none parses text git translates")
-    core.borrow(F, rep, "c18", "C18", "R14.6", ("R18.4:",), "the Python wrapper returns the command's stdout only (stderr carries RUST_LOG-dependent, time-stamped log lines)")
+    core.borrow(F, rep, "c18", "C18", "R14.6", ("R18.4:", "R18.5:", "R18.6:shared-argument-list"), "the Python wrapper returns the command's stdout only (stderr carries RUST_LOG-dependent, time-stamped log lines)")
     return core.finish(rep, explanation=EXPL, assumptions=ASSUME, trusted=TRUST)
 
 def is_dirty_true(F, f, g):
